@@ -40,6 +40,16 @@ LIST_INS_AX = [
     ForAll([l, i, x], Implies(And(0 <= i, i <= ln(l), nodup(l), Not(mem(l, x))), And(nodup(ins(l, i, x)), idx(ins(l, i, x), x) == i)), patterns=[ins(l, i, x)]),
     ForAll([l, i, x, y], Implies(And(0 <= i, i <= ln(l), mem(l, y), y != x, nodup(l), Not(mem(l, x))), idx(ins(l, i, x), y) == If(idx(l, y) >= i, idx(l, y) + 1, idx(l, y))), patterns=[idx(ins(l, i, x), y)]),
 ]
+# prefix of a list: take(l, n) = l[:n] for 0 <= n <= len(l)
+take = Function('take', LT.z, IntSort(), LT.z)
+LIST_TAKE_AX = [
+    ForAll([l], take(l, 0) == empty, patterns=[take(l, 0)]),
+    ForAll([l, i], Implies(And(0 <= i, i < ln(l)), take(l, i + 1) == app(take(l, i), at(l, i))), patterns=[take(l, i + 1)]),
+    ForAll([l], take(l, ln(l)) == l, patterns=[take(l, ln(l))]),
+    ForAll([l, i], Implies(And(0 <= i, i <= ln(l)), ln(take(l, i)) == i), patterns=[take(l, i)]),
+    ForAll([l, i, x], Implies(And(0 <= i, i <= ln(l), nodup(l)), mem(take(l, i), x) == And(mem(l, x), idx(l, x) < i)), patterns=[mem(take(l, i), x)]),
+    ForAll([l, i], Implies(And(0 <= i, i <= ln(l), nodup(l)), nodup(take(l, i))), patterns=[take(l, i)]),
+]
 # list concatenation l1 + l2
 cat = Function('cat', LT.z, LT.z, LT.z); l2_ = Const('l2_', LT.z)
 LIST_CAT_AX = [
